@@ -78,6 +78,7 @@ class FakeSock:
         self.calls = self.n_send = self.n_recv = 0
         self.on_close = None
         self.dead = False
+        self.shut = []
         self.accepted = bytearray()     # bytes the kernel took, in order
         self.delivered = bytearray()    # bytes the kernel handed out, in order
         self.connect_result = errno.EINPROGRESS
@@ -91,6 +92,8 @@ class FakeSock:
     def send(self, data):
         self.calls += 1
         self.n_send += 1
+        if 1 in self.shut or 2 in self.shut:          # sending side shut down locally
+            raise OSError(errno.EPIPE, os.strerror(errno.EPIPE))
         if not self.sends:
             self.misuse.append("send without scripted answer")
             raise self._block()
@@ -104,6 +107,8 @@ class FakeSock:
     def recv(self, bufsize):
         self.calls += 1
         self.n_recv += 1
+        if 0 in self.shut or 2 in self.shut:          # receiving side shut down locally: end of stream at once
+            return b""
         if not self.recvs:
             raise self._block()
         a = self.recvs.pop(0)
@@ -142,7 +147,7 @@ class FakeSock:
         pass
 
     def shutdown(self, how):
-        pass
+        self.shut.append(int(how))                    # SHUT_RD 0, SHUT_WR 1, SHUT_RDWR 2
 
     def close(self):
         if not self.closed and self.on_close:
@@ -337,6 +342,11 @@ def run_impl(case):
     if case.get("bufs") and client:       # the owner hands its own buffers to the client (empty or preloaded txbs, empty rxbs)
         bufs = (bytearray(bytes.fromhex(case["bufs"]["txpre"])), bytearray())
     c, sock, who = build(case["kind"], case["conn0"], case["bs"], wl, tymth=tymist.tymen(), bufs=bufs)
+    ixsrv = None
+    if not client:                       # a server that has this remoter registered, for the by-address helpers
+        from hio.core.tcp import serving
+        ixsrv = serving.Server(ha=HA, tymth=tymist.tymen())
+        ixsrv.ixes[c.ca] = c
     otx, orx = (bufs if bufs is not None else (c.txbs, c.rxbs))     # the buffers as the owner sees them
     ident = [c.txbs is otx, c.rxbs is orx]
     snaps, taken = [], bytearray()
@@ -376,6 +386,11 @@ def run_impl(case):
                 if client:
                     sock.connect_result = 0
                     c.serviceConnect()
+            elif k == "shut":        # half close by the connection itself, or by its server through the ...Ix helpers
+                if len(op) > 2 and op[2] == "ix" and not client:
+                    {"send": ixsrv.shutdownSendIx, "recv": ixsrv.shutdownReceiveIx, "both": ixsrv.shutdownIx}[op[1]](c.ca)
+                else:
+                    {"send": c.shutdownSend, "recv": c.shutdownReceive, "both": c.shutdown}[op[1]]()
             elif k == "wl":          # the attached WireLog is closed / reconfigured while the connection lives
                 if wl is not None:
                     if op[1] == "close":
@@ -411,7 +426,8 @@ def run_impl(case):
            "ksent": bytes(sock.accepted).hex(), "krecvd": bytes(sock.delivered).hex(),
            "taken": bytes(taken).hex(),
            "wlog": parse_records(case["wl"], records, who),
-           "raw": [[tag, b.hex()] for tag, b in records]}
+           "raw": [[tag, b.hex()] for tag, b in records],
+           "shutcalls": list(sock.shut)}
     if wl is not None:
         static = case["wl"]["mode"] == 1 and case["wl"].get("opened", True) and not any(op[0] == "wl" for op in case["ops"])
         obs["readTx"] = (wl.readTx() or b"").hex() if static else None
@@ -430,6 +446,10 @@ def all_tx(case):
 
 def oracle(case, obs):
     H = bytes.fromhex
+    want_shut = [HOW[op[1]] for op in case["ops"] if op[0] == "shut"]
+    if obs.get("shutcalls", []) != want_shut:
+        return f"half close: the socket was shut down with how={obs.get('shutcalls')}, the calls made ask for how={want_shut} (0 receive side, 1 send side, 2 both)"
+    case = dict(case, ops=effective_ops(case))
     if not all(obs.get("ident", [True])):
         return "the client does not use the txbs/rxbs buffers its owner supplied (the stream below is judged on the owner's buffers)"
     queued = all_tx(case)
@@ -524,6 +544,39 @@ def oracle(case, obs):
     return None
 
 
+HOW = {"recv": 0, "send": 1, "both": 2}
+
+
+def effective_ops(case):
+    """The socket answers in force once half-closes are taken into account: after the connection shut its own
+    receiving side every recv reports end of stream, after it shut its sending side every send fails with EPIPE; the
+    other direction keeps answering as scripted.  ["shut", side(, "ix")] ops themselves move no bytes."""
+    rd = wr = False
+    out = []
+    for op in case["ops"]:
+        k = op[0]
+        if k == "shut":
+            rd = rd or op[1] in ("recv", "both")
+            wr = wr or op[1] in ("send", "both")
+            out.append(op)
+            continue
+        op = list(op)
+        eof, pipe = ["data", ""], ["err", "os", errno.EPIPE]
+        if k == "sends" and wr:
+            op[1] = pipe
+        elif k == "recvs" and rd:
+            op[1] = [eof]
+        elif k == "once" and rd:
+            op[1] = eof
+        elif k == "service":
+            if wr:
+                op[1] = pipe
+            if rd:
+                op[2] = [eof]
+        out.append(op)
+    return out
+
+
 def op_answers(op):
     if op[0] == "wl":
         return [["acc", 0]]      # reconfiguring the log involves no socket at all: must not raise, must not cut
@@ -579,6 +632,8 @@ def _op(op):
         return f"(Stream.Service {_sres(op[1])} {coq_list([_rres(a) for a in op[2]], 'Stream.rres')})"
     if k == "take":
         return "Stream.TakeRx"
+    if k == "shut":
+        return "(Stream.Tx (@nil N))"      # moves nothing; its effect is in the answers of the later socket calls
     if k == "wl":
         return op      # resolved in to_coq (needs the flags in force)
     return "Stream.Connect"
@@ -608,6 +663,7 @@ def _rec(r):
 
 def to_coq(case, obs):
     H = bytes.fromhex
+    case = dict(case, ops=effective_ops(case))
     pre_op, pre_snap = [], []
     if case.get("bufs") and is_client(case["kind"]):      # a preloaded supplied txbs = a tx before anything else
         pre = preload(case)
@@ -693,6 +749,19 @@ def directed():
             ["tx", p1], ["sends", ["acc", 4]], ["recvs", [["data", "0102"], ["data", "0304", "dead"], blk]],
             ["sends", ["acc", 2]], ["once", ["data", "05"]], ["recvs", [["data", "06"], fault_ans(kind, errno.ECONNRESET)]],
             ["sends", ["acc", 2]]]})
+        # half close: after shutting its sending side the connection still receives everything the peer sends; after
+        # shutting its receiving side it still sends; directly and (remoters) through the server's ...Ix helpers
+        for via in ([], ["ix"]):
+            out.append({"kind": kind, "conn0": True, "bs": 16, "wl": WL1, "ops": [
+                ["tx", p1], ["sends", ["acc", 5]], ["recvs", [["data", "0102"], blk]], ["shut", "send"] + via,
+                ["recvs", [["data", "0304"], ["data", "05"], blk]], ["once", ["data", "06"]], ["recvs", [blk]],
+                ["recvs", [["data", "0708"]]], ["take"], ["recvs", [["data", "09"], ["data", ""]]]]})
+            out.append({"kind": kind, "conn0": True, "bs": 16, "wl": WL2, "ops": [
+                ["tx", p1], ["sends", ["acc", 5]], ["recvs", [["data", "0102"], blk]], ["shut", "recv"] + via,
+                ["sends", ["acc", 4]], ["sends", blk], ["sends", ["acc", 100]], ["tx", "aabb"], ["sends", ["acc", 1]],
+                ["recvs", [["data", "0304"]]], ["sends", ["acc", 1]]]})
+            out.append({"kind": kind, "conn0": True, "bs": 16, "wl": WL1, "ops": [
+                ["tx", p1], ["sends", ["acc", 5]], ["shut", "both"] + via, ["recvs", [["data", "0304"]]], ["sends", ["acc", 1]]]})
         # the format handed over as str or bytes, at construction and at reopen(fmt=...): data-only, default, custom
         for spec in ({"mode": 1, "fmtstr": True}, {"mode": 2, "fmtstr": True}, {"mode": 2, "fmt": "custom"},
                      {"mode": 2, "fmt": "custom", "fmtstr": True}):
@@ -804,8 +873,10 @@ def gen_case(rng, tier):
             ops.append(["service", a, [recv_ans() for _ in range(rng.choice([0, 1, 2, 3]))]])
             if a[0] == "acc":
                 pending = max(0, pending - a[1])
-        elif r < 0.96:
+        elif r < 0.945:
             ops.append(["take"])
+        elif r < 0.96:
+            ops.append(["shut", rng.choice(["send", "send", "recv", "both"])] + (["ix"] if rng.random() < 0.5 else []))
         elif r < 0.985:
             r2 = rng.random()
             if r2 < 0.2:
@@ -843,6 +914,7 @@ def generate(rng, tier):
 
 
 def nontrivial(case, obs):
+    case = dict(case, ops=effective_ops(case))
     ntx = sum(1 for o in case["ops"] if o[0] in ("tx", "txo"))
     partial = False
     prev = 0
